@@ -904,7 +904,7 @@ class HTTPResponse(BaseHTTPResponse):
                 # http.client accepts a negative chunk size and then hands out
                 # whatever follows on the wire as if it were body data.
                 raise ProtocolError("Response has a negative chunk length")
-            if amt is not None and amt != 0 and not data:
+            if (amt is not None or read1) and amt != 0 and not data:
                 # Platform-specific: Buggy versions of Python.
                 # Close the connection when no data is returned
                 #
